@@ -791,11 +791,11 @@ func init() {
 
 // trvSearchLoops: loops that are searches by design (they return or stop at the first hit); one symbol, one reason.
 var trvSearchLoops = map[string]string{
-	"(*ast.DataContext).IsRetracted / retracted":                   "membership test: returns true at the first match",
-	"(*ast.WorkingMemory).Reset / variableSnapshotMap":            "looks for the variable whose text equals the name and forwards to ResetVariable (INV-6 decides the match)",
-	"(*ast.KnowledgeBase).IsRuleRetracted / RuleEntries":           "looks the named rule up and returns its flag",
-	"(*engine.GruleEngine).ExecuteWithContext / RuleEntries":       "the rule loop: ENG-4 and ENG-13 decide its exits (context error, condition error under the flag)",
-	"(*engine.GruleEngine).FetchMatchingRules / RuleEntries":       "the rule loop: ENG-4 and ENG-13 decide its exits",
+	"(*ast.DataContext).IsRetracted / retracted":             "membership test: returns true at the first match",
+	"(*ast.WorkingMemory).Reset / variableSnapshotMap":       "looks for the variable whose text equals the name and forwards to ResetVariable (INV-6 decides the match)",
+	"(*ast.KnowledgeBase).IsRuleRetracted / RuleEntries":     "looks the named rule up and returns its flag",
+	"(*engine.GruleEngine).ExecuteWithContext / RuleEntries": "the rule loop: ENG-4 and ENG-13 decide its exits (context error, condition error under the flag)",
+	"(*engine.GruleEngine).FetchMatchingRules / RuleEntries": "the rule loop: ENG-4 and ENG-13 decide its exits",
 }
 
 // TRV-1: a loop that ranges over a field of a knowledge-base resident object (children of a node, registry and index maps,
